@@ -391,6 +391,10 @@ def nested_core():
         sd(hascompose=True, compose=[["wait"], ["terminate"], ["log", "never"]]),
         sd(hascompose=True, compose=[["wait"], ["termsim"]]),
         sd(hascompose=True, compose=[["require", "c"], ["wait"], ["require", "c"], ["wait"]]),
+        # terminate-when conditions are checked AFTER the compose block has run for the step
+        sd(termWhen=["c"], hascompose=True, compose=[["while", "T", [["log", "w"], ["wait"]]]]),
+        sd(termWhen=["c"], hascompose=True, compose=[["log", "k0"], ["wait"], ["log", "k1"], ["wait"], ["log", "k2"]]),
+        sd(termWhen=["c"], termAfter=[2, "steps"], hascompose=True, compose=[["while", "T", [["log", "v"], ["wait"]]]]),
     ]
     tops = [
         [["log", "a"], ["sdo", [2]], ["log", "b"], ["wait"], ["log", "c"]],
@@ -407,8 +411,9 @@ def nested_core():
     for sub in subs:
         for top in tops:
             for tab in tables[: (2 if top is not tops[0] else 3)]:
-                sdefs = [sd(hascompose=True, compose=top, records=[["rec", "rt"]]), sub,
-                         sd(hascompose=True, compose=[["log", "p0"], ["wait"], ["log", "p1"]])]
+                sdefs = [sd(hascompose=True, compose=top, records=[["rec", "rt"]],
+                            termWhen=(["d"] if (len(cases) % 3 == 0) else [])),     # (also on the top-level scenario)
+                         sub, sd(hascompose=True, compose=[["log", "p0"], ["wait"], ["log", "p1"]])]
                 t = {"T": [True], "F": [False]}
                 t.update(tab)
                 cases.append({
